@@ -94,6 +94,55 @@ func checkC14(c *Ctx) error {
 			}
 		}
 	}
+	// (2b) failure points of Migrator.MigrateFiles
+	{
+		symx.InstallMigrateStubs(k.E)
+		symx.InstallSyncStubs(k.E)
+		fnM := k.Pkg.Func("verifHarnessMigrateFiles")
+		mres := k.E.Run(fnM, nil, nil)
+		failing, succeeding := 0, 0
+		for _, r := range mres {
+			paths++
+			if !strings.HasPrefix(r.Outcome, "ok") {
+				c.Inconclusive("MigrateFiles harness: path outcome " + r.Outcome)
+				continue
+			}
+			failed := !symx.IsNilIface(r.Ret)
+			writes, refusal := 0, false
+			for _, ev := range r.Events {
+				if pe, ok := ev.(symx.ProcEvent); ok {
+					switch pe.Op {
+					case "os.WriteFile":
+						writes++
+					case "load-error", "package-error", "transform-error", "format-error", "os.WriteFile-error":
+						refusal = true
+					}
+				}
+			}
+			oblig += 2
+			if failed {
+				failing++
+			} else {
+				succeeding++
+			}
+			if failed && writes > 0 {
+				report(map[string]string{"kind": "output-written-although-migration-failed", "harness": "MigrateFiles"}, map[string]any{"events": fmt.Sprint(r.Events)}, "C14-migratefiles-written")
+			}
+			if refusal && !failed {
+				// a package error only counts if the loop reached that package before another error ended the run
+				report(map[string]string{"kind": "failure-not-reported", "harness": "MigrateFiles"}, map[string]any{"events": fmt.Sprint(r.Events)}, "C14-migratefiles-silent")
+			}
+			if writes > 1 {
+				report(map[string]string{"kind": "several-output-files", "harness": "MigrateFiles"}, map[string]any{"events": fmt.Sprint(r.Events)}, "C14-migratefiles-multi")
+			}
+		}
+		c.Coverage["migratefiles_paths"] = len(mres)
+		c.Coverage["migratefiles_failing_paths"] = failing
+		c.Coverage["migratefiles_succeeding_paths"] = succeeding
+		if failing == 0 || succeeding == 0 {
+			c.Inconclusive(fmt.Sprintf("MigrateFiles harness covered failing=%d succeeding=%d paths", failing, succeeding))
+		}
+	}
 	// (3) gates on the wire corpus
 	pipe, err := pipeline.NewWire(c.ID)
 	if err != nil {
